@@ -12,7 +12,8 @@ from ..simdev import ScriptPeer
 PROPERTY = "C03"
 LEVEL = "fault_enumeration"
 RULE = ("fault enumeration over authentic reference-built reply packets: every single-bit flip at every bit position and "
-        "every truncation length through LAN.send on the simulated wire (followed by an honest exchange), every single-byte "
+        "every truncation length through LAN.send on the simulated wire (followed by an honest exchange; every 5th flip also as a packet that is NOT the awaited "
+        "reply: queued while the connection idles, or right behind the authentic reply), every single-byte "
         "substitution (all 255 values), every position pair x {01,80,FF}^2 and every 2/4/8/16/32-byte window overwritten with 00/FF/complement at the _Packet.decode seam; the same packets followed by "
         "further bytes in the segment; every bit flip of the inner packet inside an authentic V3 envelope. "
         "A case is (frame length, fault); all are non-trivial (each changes the packet)")
@@ -85,6 +86,44 @@ def wire(corrupt: bytes, good_frame: bytes, authentic_first: bytes = None):
     try:
         out = w.run(drive())
         return out[1] if out[0] == "ok" else ((exc_class(out), ""), ("n/a", ""))
+    finally:
+        w.close()
+
+
+def wire_unsolicited(corrupt: bytes, good_frame: bytes, mode: str):
+    """The damaged packet is not the awaited reply: it arrives while the connection idles ("queued"), or right behind
+    the authentic reply of an exchange ("behind").  It must still surface as a ProtocolError, not vanish."""
+    import asyncio
+    w = World()
+    good = rc.v2_build(good_frame, 0x1122334455)
+    n = {"i": 0}
+
+    def on_data(conn, data, i):
+        n["i"] += 1
+        if mode == "behind" and n["i"] == 2:
+            conn.deliver_many([good, corrupt], 0.01)
+        else:
+            conn.deliver(good, 0.01)
+
+    w.net.listen(IP, PORT, ScriptPeer(on_data))
+    lan = LAN(IP, PORT, 0x1122334455)
+
+    async def drive():
+        res = []
+        await lan.send(CMD)
+        if mode == "queued":
+            w.net.conns[-1].deliver(corrupt, 0.001)
+            await asyncio.sleep(0.01)
+        for _ in range(3):
+            try:
+                res.append(("ok", await lan.send(CMD)))
+            except BaseException as e:  # noqa: BLE001
+                res.append((type(e).__name__, str(e)[:60]))
+        return res
+
+    try:
+        out = w.run(drive())
+        return out[1] if out[0] == "ok" else [(exc_class(out), "")]
     finally:
         w.close()
 
@@ -181,6 +220,16 @@ def run_shard(shard, tier) -> Stats:
                                  "ProtocolError", p1)
             if r2 != ("ok", [frame]):
                 st.violation(f"exchange after rejected packet -> {r2[0]}", case, ("ok", [frame]), r2)
+            if bit % 5 == 0:
+                for mode in ("queued", "behind"):
+                    res = wire_unsolicited(m, frame, mode)
+                    kinds = [r[0] for r in res]
+                    if "ProtocolError" not in kinds[:2] or any(k not in ("ok", "ProtocolError") for k in kinds) or kinds[-1] != "ok":
+                        st.violation(f"damaged packet {mode} (not the awaited reply) field={field(bit // 8, len(pkt))}: no protocol error / no recovery",
+                                     {**case, "mode": mode}, "ProtocolError from the exchange that meets it, then normal service", kinds)
+                    elif any(r[0] == "ok" and any(f != frame for f in r[1]) for r in res):
+                        st.violation(f"damaged packet {mode}: a frame other than the authentic one was returned", {**case, "mode": mode}, [frame], kinds)
+                    st.ev((kind, n, bit, mode), "ProtocolError", True)
             for primed in (None, pkt):
                 d = direct(m, primed)
                 if d[0] != "ProtocolError":
@@ -286,6 +335,8 @@ def replay(case):
         return {"wire_v3": wire_v3(bytes(m), frame)}
     if case["kind"] == "bits":
         m[case["bit"] // 8] ^= 1 << (case["bit"] % 8)
+        if case.get("mode"):
+            return {"wire_unsolicited": wire_unsolicited(bytes(m), frame, case["mode"])}
     elif case["kind"] == "trunc":
         m = m[:case["keep"]]
     elif case["kind"] == "subst":
